@@ -34,6 +34,6 @@ class KnownFindings:
 
     def match(self, prop: str, sig: str, worker: str) -> Optional[Dict[str, Any]]:
         for e in self.entries:
-            if e["property"] == prop and e["sig"] == sig and (e["worker"] is None or e["worker"] == worker):
+            if e["property"] == prop and e["sig"] == sig and (e["worker"] is None or worker == "any" or e["worker"] == worker):
                 return e
         return None
